@@ -65,7 +65,7 @@ theorem altFindex_cases (o : Opts) (d : Dev) (om0 : Bool) (tf : Nat) (fs : List 
   cases ut <;> cases ke <;> cases ne <;> cases ind <;>
     simp [altPlanForMask, altFindex, h1, h2, h3]
 
-def qFixed : Quirks := ⟨false, false, false, false⟩
+def qFixed : Quirks := ⟨false, false, false, false, false, false⟩
 
 /-- every entry of a plan has a non-empty index path -/
 def IdxOK (l : List Finfo) : Prop := ∀ fi ∈ l, fi.index ≠ []
@@ -376,27 +376,32 @@ theorem planFixed_members (o : Opts) (enc : Bool → GoType → GoVal → JV) :
 theorem qFixed_fields : qFixed.bytesNum = false ∧ qFixed.elemNilPanic = false ∧ qFixed.mapNilNull = false ∧
     qFixed.embNilPanic = false := ⟨rfl, rfl, rfl, rfl⟩
 
-/-- the walker with every deviation repaired, executing the repaired plan, is the reference -/
-theorem encVal_fixed_eq_ref (o : Opts) (tf : Nat) :
+theorem childOE_qFixed (fi : Finfo) : childOE qFixed fi = false := by simp [childOE, qFixed]
+
+/-- the walker with every deviation repaired, executing a plan that is the repaired one, is the
+reference (no plan is ever handed down with `omitEmpty`: `oe` stays false) -/
+theorem encVal_fixed_eq_ref (o : Opts) (tf : Nat) (plan : Bool → List (FieldHdr × GoType) → List Finfo)
+    (hp : ∀ fs, plan false fs = planFixed o tf fs) :
     ∀ (vf : Nat) (vi ie : Bool) (t : GoType) (v : GoVal),
-      encVal qFixed o (planFixed o tf) vf vi ie t v = refVal o tf vf vi t v := by
+      encVal qFixed o plan vf vi ie false t v = refVal o tf vf vi t v := by
   intro vf
   induction vf with
   | zero => intro vi ie t v; rfl
   | succ n ih =>
     intro vi ie t v
-    have ihf : ∀ (a b : Bool) (e : GoType), encVal qFixed o (planFixed o tf) n a b e = refVal o tf n a e := by
+    have ihf : ∀ (a b : Bool) (e : GoType), encVal qFixed o plan n a b false e = refVal o tf n a e := by
       intro a b e; funext x; exact ih a b e x
     cases t <;> cases v <;> simp only [encVal, refVal, qFixed_fields.1, qFixed_fields.2.1, qFixed_fields.2.2.1,
-      Bool.false_and, Bool.and_false, Bool.false_eq_true, ↓reduceIte, ih, ihf]
+      childOE_qFixed, Bool.false_and, Bool.and_false, Bool.false_eq_true, ↓reduceIte, ih, ihf]
     case struct.struct name pkg fs vs =>
       have := planFixed_members o (fun vi ft fv => refVal o tf n vi ft fv) tf fs vs
-      rw [this]
+      rw [hp, this]
 
 /-- with every deviation repaired (and `OmitEmpty` off) the three packages execute the same plan -/
 theorem planOf_fixed (e : Enc) (o : Opts) (ho : o.omitEmpty = false) (tf : Nat) (fs : List (FieldHdr × GoType)) :
-    planOf e Dev.fixed o tf fs = planFixed o tf fs := by
-  cases e <;> simp only [planOf, ojFindex_cases, altFindex_cases, planFixed, Dev.fixed, ho, ojTagFields_fixed]
+    planOf e Dev.fixed o tf false fs = planFixed o tf fs := by
+  cases e <;> simp only [planOf, ojFindex_cases, altFindex_cases, planFixed, Dev.fixed, ho, Bool.or_false,
+    ojTagFields_fixed]
 
 theorem quirksOf_fixed (e : Enc) (o : Opts) : quirksOf e Dev.fixed o = qFixed := by
   cases e <;> simp [quirksOf, Dev.fixed, qFixed]
@@ -479,7 +484,7 @@ theorem planOf_untriggered (e : Enc) (d : Dev) (o : Opts) (ho : o.omitEmpty = fa
     (fs : List (FieldHdr × GoType))
     (h1 : (!d.leak || !o.useTags || e == .alt || noOmitTag tf fs) = true)
     (h2 : (!d.tagExact || !o.useTags || o.keyExact) = true) :
-    planOf e d o tf fs = planFixed o tf fs := by
+    planOf e d o tf false fs = planFixed o tf fs := by
   cases hu : o.useTags with
   | false => cases e <;> simp [planOf, ojFindex_cases, altFindex_cases, planFixed, hu, ho]
   | true =>
@@ -494,7 +499,7 @@ theorem planOf_untriggered (e : Enc) (d : Dev) (o : Opts) (ho : o.omitEmpty = fa
     cases e with
     | alt => simp only [planOf, altFindex_cases, planFixed, hu, ↓reduceIte, hB]
     | oj =>
-      simp only [planOf, ojFindex_cases, planFixed, hu, ↓reduceIte, ho]
+      simp only [planOf, ojFindex_cases, planFixed, hu, ↓reduceIte, ho, Bool.or_false]
       cases hl : d.leak with
       | false => rw [ojTagFields_fixed, hB]
       | true =>
@@ -502,7 +507,7 @@ theorem planOf_untriggered (e : Enc) (d : Dev) (o : Opts) (ho : o.omitEmpty = fa
         have : noOmitTag tf fs = true := by simpa using h1
         rw [ojTagFields_noOmit _ _ _ _ _ this, hB]
     | sen =>
-      simp only [planOf, ojFindex_cases, planFixed, hu, ↓reduceIte, ho]
+      simp only [planOf, ojFindex_cases, planFixed, hu, ↓reduceIte, ho, Bool.or_false]
       cases hl : d.leak with
       | false => rw [ojTagFields_fixed, hB]
       | true =>
@@ -525,7 +530,8 @@ theorem map_congr_all {α β : Type} {f g : α → β} {p : α → Bool} :
 theorem encVal_untriggered (e : Enc) (d : Dev) (o : Opts) (ho : o.omitEmpty = false) (tf : Nat) :
     ∀ (vf : Nat) (vi ie : Bool) (t : GoType) (v : GoVal),
       untriggered e d o tf (planFixed o tf) vf vi ie t v = true →
-      encVal (quirksOf e d o) o (planOf e d o tf) vf vi ie t v = encVal qFixed o (planFixed o tf) vf vi ie t v := by
+      encVal (quirksOf e d o) o (planOf e d o tf) vf vi ie false t v =
+        encVal qFixed o (fun _ => planFixed o tf) vf vi ie false t v := by
   intro vf
   induction vf with
   | zero => intro vi ie t v _; rfl
@@ -533,8 +539,8 @@ theorem encVal_untriggered (e : Enc) (d : Dev) (o : Opts) (ho : o.omitEmpty = fa
     intro vi ie t v hU
     cases t <;> cases v <;>
       simp only [untriggered, Bool.not_eq_true', Bool.and_eq_true, Bool.or_eq_true, List.all_eq_true] at hU <;>
-      simp only [encVal, qFixed_fields.1, qFixed_fields.2.1, qFixed_fields.2.2.1, Bool.false_and, Bool.and_false,
-        Bool.false_eq_true, ↓reduceIte]
+      simp only [encVal, qFixed_fields.1, qFixed_fields.2.1, qFixed_fields.2.2.1, childOE_qFixed, Bool.false_and,
+        Bool.and_false, Bool.false_eq_true, ↓reduceIte]
     case bytes.nilBytes => simp [hU]
     case bytes.bytes => simp [hU]
     case iface.iface => exact ih _ _ _ _ hU
@@ -558,7 +564,7 @@ theorem encVal_untriggered (e : Enc) (d : Dev) (o : Opts) (ho : o.omitEmpty = fa
       simp only [this.1, Bool.false_eq_true, ↓reduceIte, ih _ _ _ _ this.2]
     case struct.struct name pkg fs vs =>
       obtain ⟨⟨h1, h2⟩, h3⟩ := hU
-      have hp : planOf e d o tf fs = planFixed o tf fs :=
+      have hp : planOf e d o tf false fs = planFixed o tf fs :=
         planOf_untriggered e d o ho tf fs
           (by rcases h1 with ((h | h) | h) | h <;> simp [h])
           (by rcases h2 with (h | h) | h <;> simp [h])
@@ -566,8 +572,8 @@ theorem encVal_untriggered (e : Enc) (d : Dev) (o : Opts) (ho : o.omitEmpty = fa
       congr 2
       apply filterMap_congr'
       intro fi hfi
-      have h3' := h3 fi hfi
-      simp only [fieldMember]
+      obtain ⟨hoe, h3'⟩ := h3 fi hfi
+      simp only [fieldMember, hoe]
       cases hl : fieldByIndex (.struct vs) fi.index with
       | none =>
         simp only [hl, Bool.not_eq_true'] at h3'
